@@ -4,9 +4,12 @@ namespace GeomV.C08
 open RNum RTrans
 variable {α : Type} [RTrans α]
 
-/-- what `Merc(this)` computes once: the mutated `*SR` (Long0, X0, Y0 defaulted) and the local `K0` -/
+/-- what `Merc(this)` computes once: the mutated `*SR` (Long0, X0, Y0 defaulted) and the locals `E` and `K0`.
+After /repo fix aa8e2e6 the closures use the constructor's own `E = sqrt(1 − (b/a)²)` (as merc.js does), NOT
+`this.E` of DeriveConstants (which with `+R_A` belongs to the ellipsoid before `a` is replaced). -/
 structure MercC (α : Type) where
   sr : SR α
+  e : α
   k0 : α
 
 /-- `Merc`: the mutation of `*SR` made explicit -/
@@ -21,7 +24,7 @@ def initMerc (s : SR α) : Except Err (MercC α) :=
     if !(isNaN s.latTS) then
       (if s.sphere then cos s.latTS else msfnz e (sin s.latTS) (cos s.latTS))
     else if isNaN s.k0 then (if !(isNaN s.k) then s.k else 1.0) else s.k0
-  .ok ⟨s, k0⟩
+  .ok ⟨s, e, k0⟩
 
 def fwdMerc (c : MercC α) (lon lat : α) : Except Err (α × α) :=
   let s := c.sr
@@ -33,7 +36,7 @@ def fwdMerc (c : MercC α) (lon lat : α) : Except Err (α × α) :=
          s.y0 + s.a * c.k0 * log (tan (fortPi + 0.5 * lat)))
   else
     let sinphi := sin lat
-    let ts := tsfnz s.e lat sinphi
+    let ts := tsfnz c.e lat sinphi
     .ok (s.x0 + s.a * c.k0 * adjustLon (lon - s.long0), s.y0 - s.a * c.k0 * log ts)
 
 def invMerc (c : MercC α) (x y : α) : Except Err (α × α) := do
@@ -41,7 +44,7 @@ def invMerc (c : MercC α) (x y : α) : Except Err (α × α) := do
   let x := x - s.x0
   let y := y - s.y0
   let lat ← if s.sphere then pure (halfPi - 2.0 * atan (exp (-y / (s.a * c.k0))))
-            else phi2z s.e (exp (-y / (s.a * c.k0)))
+            else phi2z c.e (exp (-y / (s.a * c.k0)))
   pure (adjustLon (s.long0 + x / (s.a * c.k0)), lat)
 
 /-! ## longlat: both closures are the identity -/
